@@ -6,26 +6,34 @@ from .. import alleledetect_gen as G
 from .. import synth, util
 
 RULE = ("a case = (reference of 40-260 bases, sorted list of listed variants [SNV / insertion / deletion / MNP, VCF-style "
-        "with anchor, some with trailing context], one haplotype carrying a random subset of them plus unlisted "
-        "insertions/deletions/mismatches, 1-6 error-free alignments of that haplotype written to a real indexed BAM: random "
-        "start/end columns incl. variant at first/last aligned base, CIGAR style M or =/X or mixed with extra operation "
-        "boundaries, soft/hard clips, one reference skip, FR/FF mate pairs, filtered flags) x (with reference FASTA / "
-        "without); plus exhaustive placements of a 12-base read over a 30-base reference with one variant of each type. "
+        "with anchor, some with trailing context, some shiftable], one haplotype carrying a random subset of them plus unlisted "
+        "insertions/deletions/mismatches (wide, random or tight spacing), 1-6 error-free alignments of that haplotype written "
+        "to a real indexed BAM: random start/end columns incl. variant at first/last aligned base, CIGAR style M or =/X or "
+        "mixed with extra operation boundaries, soft/hard clips, one reference skip (often next to a variant), FR/FF/RR/RF mate "
+        "pairs, filtered alignments (mapq, duplicate, secondary, supplementary), random base qualities, supplementary distance "
+        "threshold 100000 or of the order of the read length) x (with reference FASTA / without); plus exhaustive placements "
+        "of a 12-base read over a 30-base reference with one variant of each type, both alleles, M and =/X style. "
         "A case is non-trivial if at least one usable alignment fully covers a listed variant; distinct = distinct "
         "(reference, variants, alignments, mode).")
 TRUSTED = [
     "modelled, not verified: pysam/htslib decoding of BAM records (cigartuples, query_sequence incl. soft clips, "
     "query_qualities, reference_start/end, flags), pyfaidx, SampleBamReader read-group filtering, core.Read/ReadSet containers",
     "not modelled: affine-gap and kmerald re-alignment modes (non-default), restricted_genotypes, multi-ALT records, "
-    "the P (padding) CIGAR operation inside re-alignment windows, regions=, multiple BAM files, CRAM",
-    "edit_distance is the model of C19 (coq/model/EditDist.v); its equality with the Levenshtein distance is imported "
-    "from coq/proofs/EditDistProofs.v",
+    "regions=, multiple BAM files, CRAM, use_supplementary=True; the P (padding) CIGAR operation is in the model but not generated",
+    "edit_distance is the model of C19 (coq/model/EditDist.v); its equality with the Levenshtein distance and lev x y = 0 <-> x = y "
+    "are imported from coq/proofs/EditDistProofs.v (edit_distance_is_lev, lev_zero_iff_eq)",
+    "ground truth of a case (which allele the haplotype carries, which variants an alignment fully covers, whether the "
+    "re-alignment window is free of other differences) is computed by the generator harness/alleledetect_gen.py",
 ]
 ASSUMPTIONS = [
-    "variants sorted by strictly increasing position (ReadSetReader.read asserts uniqueness; VcfReader delivers sorted records)",
-    "the BAM record is consistent: query-consuming CIGAR lengths sum to the length of the query sequence",
-    "realign_correct: the read is an exact copy of the haplotype with the canonical CIGAR, and no other difference to the "
-    "reference and no reference skip lies within the re-alignment window (overhang + allele length)",
+    "variants sorted by strictly increasing position (ReadSetReader.read asserts uniqueness; VcfReader delivers sorted records); "
+    "the reference-free theorems assume the NORMALISED positions weakly increasing",
+    "the BAM record is consistent: query-consuming CIGAR lengths sum to the length of the query sequence; CIGAR lengths positive",
+    "realign_correct / detect_by_alignment_finds: the read shows the carried allele with clean flanks: no other difference to the "
+    "reference within `overhang` bases of the variant (as far as the read reaches; the window may end at the read end, at clips "
+    "or at a reference skip)",
+    "reference-free, insertions/deletions: the indel is shown at the variant's normalised position, flanked by aligned bases; "
+    "the case 'insertion shown => REF not reported' is validated, not proved",
 ]
 
 HEADER = """From Coq Require Import ZArith List Bool Arith.
@@ -371,10 +379,11 @@ if _bits:
     CHECKS["L2"] = "l2_model_with (mkRules " + " ".join("true" if c == "1" else "false" for c in _bits) + ")"
 L1_KEYS = ("L1wrong", "L1wrong_skip", "L1overlap", "L1missing", "L1missing_skip", "L1missing_pair", "L1crash")
 # attribution of failing cases to the switchable rules of the model (second Coq round, failing cases only)
-ATTRIB = {"rule0": "not_needed 0", "rule1": "not_needed 1", "rule2": "not_needed 2", "rule3": "not_needed 3",
+ATTRIB = {"L2orig": "l2_model_with original_rules", "rule0": "not_needed 0", "rule1": "not_needed 1", "rule2": "not_needed 2", "rule3": "not_needed 3",
           "rule4": "not_needed 4"}
 
-# one signature per defect class (= per switchable rule of the model); everything else keeps a generic signature
+# one signature per defect class (= per switchable rule of the model); everything else keeps a generic signature.
+# All five classes are repaired in /repo; a regression (output = the model under original_rules) gets its signature back.
 RULE_SIG = {
     "rule0": ("realign:window-extends-across-reference-skip",
               "cigar_prefix_length reports the requested instead of the consumed reference bases at a reference skip (N); "
@@ -456,13 +465,14 @@ def report(ctx, raw, failing):
     att, errors = eval_checks("C06a", HEADER, ATTRIB, terms, shard=100, timeout=1500)
     if errors:
         raise RuntimeError("coq evaluation failed: " + errors[0][1])
-    needed = {i: [r for r in ATTRIB if k in set(att[r])] for k, i in enumerate(bad)}
+    needed = {i: [r for r in RULE_SIG if k in set(att[r])] for k, i in enumerate(bad)}
+    as_original = {i for k, i in enumerate(bad) if k not in set(att["L2orig"])}   # output = model of the code before the fixes
     for i in bad:
         case, refmode, out = raw[i]
         rp = {"case": case_json(case), "refmode": refmode}
         clauses = [k for k in L1_KEYS if i in F[k]]
         d = describe(case, refmode, out)
-        if i in F["L2"] or i in F["repaired"] or not needed[i]:
+        if (i in F["L2"] and i not in as_original) or i in F["repaired"] or not needed[i]:
             for c in clauses:
                 ctx.violation(GENERIC[c] + ("" if refmode else "-noref"), f"clause {c} fails: {d}", rp)
         else:
